@@ -74,7 +74,10 @@ func (it *Item[T]) Next() *Item[T] { return it.next }
 
 // In reports if an item is a member of a stack. Because item's track
 // references to the stack, this is an O(1) operation.
-func (it *Item[T]) In(s *Stack[T]) bool { return it.stack == s }
+//
+// The root item at the bottom of a stack (which is what Head()
+// returns for an empty stack) is not a member of the stack.
+func (it *Item[T]) In(s *Stack[T]) bool { return it.ok && it.stack == s }
 
 // Set mutates the value of an Item, returning true if the operation
 // has been successful. The operation fails if the Item is the
@@ -111,17 +114,20 @@ func (it *Item[T]) Remove() bool {
 		return false
 	}
 
-	// ok, go looking for the detach point in the stack.
-	for next := it.stack.head; next.Ok(); next = next.next {
-		// the next item is going to be the head of the new stack
-		if next == it {
+	// removing the head is the same as Pop.
+	if it.stack.head == it {
+		it.stack.Pop()
+		return true
+	}
+
+	// ok, go looking for the item that points to this one, and
+	// unlink it.
+	for prev := it.stack.head; prev.Ok(); prev = prev.next {
+		if prev.next == it {
+			prev.next = it.next
 			it.stack.length--
 			it.stack = nil
-			next.next = it.next
 			return true
-		}
-		if next.next == nil {
-			break
 		}
 	}
 	return false
